@@ -321,6 +321,13 @@ class Check:
 
     def obligations(self, theorems, module=None):
         n, d, broken, axioms, out = obligations_status(self.prop, theorems, module)
+        if self.tier == "thorough" and not broken:
+            # independent re-check of the compiled property module and everything it depends on
+            rc, cout = sh("timeout 1500 coqchk -o -silent -Q theories SF -Q Properties SFP -Q extracted SFX SFP.%s 2>&1" % (module or self.prop), cwd=COQ, timeout=1600)
+            summ = cout[cout.find("CONTEXT SUMMARY"):] if "CONTEXT SUMMARY" in cout else cout[-600:]
+            self.cov["coqchk"] = " ".join(summ.split())[:600]
+            if rc != 0 or "Axioms: <none>" not in " ".join(summ.split()):
+                broken.append("coqchk does not accept %s with no axioms: %s" % (module or self.prop, " ".join(summ.split())[:300]))
         self.cov["obligations"] += n
         self.cov["discharged"] += d
         self.cov["theorems"] = self.cov.get("theorems", []) + list(theorems)
